@@ -8,6 +8,8 @@ Open Scope Z_scope.
 
 Record C40_rt : Type := mkRT {
   rt_v : value;                      (* the value handed to create_dynamic_sample *)
+  rt_mut : option (bool * Z);        (* the DynamicData is damaged before create_sample:
+                                        (true, id) member id removed, (false, id) replaced by a foreign storage *)
   rt_dyn : res dyn;                  (* dump of the DynamicData (sorted by member id) or Panic *)
   rt_back : res (option value);      (* create_sample of that DynamicData *)
   rt_ser : bool;                     (* the DynamicData was accepted by the XCDR1 and XCDR2 serializers *)
@@ -75,6 +77,7 @@ Fixpoint storage_eqb (a b : storage) {struct a} : bool :=
          | d :: x', d' :: y' => dgo d d' && lgo x' y'
          | _, _ => false
          end) x y
+  | SOther, SOther => true
   | _, _ => false
   end.
 
@@ -112,10 +115,18 @@ Definition back_eqb (a b : res (option value)) : bool :=
 
 (* ---------------------------------------------------------------- the model *)
 
+Definition mutate (m : option (bool * Z)) (d : dyn) : dyn :=
+  match m with
+  | None => d
+  | Some (true, id) => ddel id d
+  | Some (false, id) => dset id SOther d
+  end.
+
 Definition C40_model_ok (c : C40_case) : bool :=
   opt_eqb tdesc_eqb (describe (c_ty c)) (Some (c_desc c)) &&
   forallb (fun r => dynres_eqb (to_dyn (c_ty c) (rt_v r)) (rt_dyn r) &&
-                    back_eqb (roundtrip (c_ty c) (rt_v r)) (rt_back r)) (c_rts c).
+                    back_eqb (d <- to_dyn (c_ty c) (rt_v r) ;; from_dyn (c_ty c) (mutate (rt_mut r) d)) (rt_back r))
+          (c_rts c).
 
 (* --------------------------------------------------------------- the oracle *)
 (* The property, stated on the IMPLEMENTATION's output and on the declaration,
@@ -214,6 +225,13 @@ Fixpoint has_vec_i8 (t : ty) : bool :=
   | _ => false
   end.
 
+(* the entries of xs that belong to members which are not non_serialized *)
+Fixpoint published {A} (hs : list mhead) (xs : list A) : list A :=
+  match hs, xs with
+  | m :: hs', x :: xs' => if m_ns m then published hs' xs' else x :: published hs' xs'
+  | _, _ => []
+  end.
+
 Definition cls (b : bool) (k : N) : N := if b then k else 0%N.
 
 (* every check: (holds on the implementation's output, class that explains a failure) *)
@@ -224,19 +242,23 @@ Definition C40_checks (c : C40_case) : list (bool * N) :=
   match t with
   | TStruct h dm =>
       let hs := map fst dm in
+      (* a non_serialized member is not part of the published (serialized) type:
+         MemberDescriptor has no flag for it, the only way to reflect it is to omit it *)
+      let pub := fun A (xs : list A) => published hs xs in
+      let k6 := fun (k : N) => if ns_here t then 6%N else k in
       [ ((td_kind d =? K_STRUCTURE) && String.eqb (td_name d) (tname (s_rname h) (s_cname h)) &&
          ext_eqb (td_ext d) (s_ext h) && Bool.eqb (td_nested d) (s_nested h), 0%N);
-        (list_eqb String.eqb (map md_name ms) (names_from h 0 hs), 0%N);                 (* names, order *)
-        (list_eqb Z.eqb (map md_index ms) (map Z.of_nat (seq 0 (length hs))), 0%N);
-        (list_eqb Bool.eqb (map md_key ms) (map m_key hs), 0%N);
-        (list_eqb Bool.eqb (map md_optional ms) (map m_optional hs), 0%N);
-        (list_eqb Bool.eqb (map md_must_understand ms) (map m_key hs), 0%N);
-        (list_eqb tck_eqb (map md_tc ms) (map (fun m => tc_of (m_tc m)) hs), 0%N);
-        (list_eqb tsig_eqb (map md_type ms) (map (fun m => spec_sig (snd m)) dm),        (* member types *)
-         cls (existsb (fun m => has_vec_i8 (snd m)) dm) 7);
-        (list_eqb Z.eqb (map md_id ms) (spec_ids_from h 0 0 hs),                          (* ids *)
-         if kn_explicit_id_ignored t then 1%N else cls (kn_hash_unmasked t) 2);
-        (nodupb (map md_id ms), cls (dup_ids_here t) 3) ]                                 (* ids distinct *)
+        (list_eqb String.eqb (map md_name ms) (pub _ (names_from h 0 hs)), k6 0%N);        (* names, order *)
+        (list_eqb Z.eqb (map md_index ms) (map Z.of_nat (seq 0 (length (pub _ hs)))), k6 0%N);
+        (list_eqb Bool.eqb (map md_key ms) (pub _ (map m_key hs)), k6 0%N);
+        (list_eqb Bool.eqb (map md_optional ms) (pub _ (map m_optional hs)), k6 0%N);
+        (list_eqb Bool.eqb (map md_must_understand ms) (pub _ (map m_key hs)), k6 0%N);
+        (list_eqb tck_eqb (map md_tc ms) (pub _ (map (fun m => tc_of (m_tc m)) hs)), k6 0%N);
+        (list_eqb tsig_eqb (map md_type ms) (pub _ (map (fun m => spec_sig (snd m)) dm)),  (* member types *)
+         k6 (cls (existsb (fun m => has_vec_i8 (snd m)) dm) 7));
+        (list_eqb Z.eqb (map md_id ms) (pub _ (spec_ids_from h 0 0 hs)),                    (* ids *)
+         k6 (if kn_explicit_id_ignored t then 1%N else cls (kn_hash_unmasked t) 2));
+        (nodupb (map md_id ms), cls (dup_ids_here t) 3) ]                                   (* ids distinct *)
   | TEnum e =>
       [ ((td_kind d =? K_ENUM) && String.eqb (td_name d) (tname (e_rname e) (e_cname e)) &&
          Bool.eqb (td_nested d) (e_nested e) &&
@@ -267,7 +289,10 @@ Definition C40_checks (c : C40_case) : list (bool * N) :=
   (* round trips *)
   map (fun r =>
          (match rt_dyn r with
-          | Ok _ => back_eqb (rt_back r) (Ok (Some (erase_ns t (rt_v r))))
+          | Ok _ => match rt_mut r with
+                    | None => back_eqb (rt_back r) (Ok (Some (erase_ns t (rt_v r))))
+                    | Some _ => true       (* damaged dynamic data: not judged by the property *)
+                    end
           | Panic _ => exposes_none t (rt_v r)
           | Err _ => false
           end,
